@@ -5,7 +5,7 @@ from core import call_matches, call_names, op_place, op_local, backward_slice
 from props import C02, shared
 
 LEVEL = 'proof'
-FLOOR = 16
+FLOOR = 37      # 70% of the 53 obligation instances derived on the tree the rules were last reviewed against
 EXPLANATION = ('Header follows its fields: every function that changes filled / last_removed marks the header dirty, and process_commits logs the header '
                '(complete_plan for every column) after all plans and before the record is closed; the in-memory free list changes under its lock together '
                'with the counters (C10.5); when a value disappears or moves, its index entry is removed or re-pointed in the same record; free-list links '
